@@ -100,6 +100,12 @@ def extract_handler(fn):
             for c in _calls(st, "run_step"):
                 info["steps"].append(L(c))
     scan(tree.body, "normal")
+    info["unlock_when_refused"] = False
+    if info["test"] is not None:
+        for tr in [n for n in ast.walk(tree) if isinstance(n, ast.Try)]:
+            inside = any(isinstance(n, ast.If) and L(n) == info["test"] for st in tr.body for n in ast.walk(st))
+            if inside and any(_calls(st, "unlock") for st in tr.finalbody):
+                info["unlock_when_refused"] = True
     return info
 
 
@@ -160,6 +166,8 @@ def ops_of(kind, h, nsteps):
     ops = []
     if h["test"]:
         ops.append("T")
+        if h.get("unlock_when_refused"):
+            ops.append("X")          # the unlock a refused request executes on its way out
     if h["lock"] and not h["atomic_test"]:
         ops.append("L")
     for j in range(nsteps):
@@ -201,7 +209,7 @@ def bmc(hs, kinds, nsteps, want_violation=True, faults=True):
             s.add(z3.Or(*[fault[r] == a for a in allowed]))
         s.add(fstep[r] >= 0, fstep[r] < nsteps[r])
 
-    lockops = [(r, o) for (r, o) in allops if o in ("L", "U") or (o == "T" and hs[kinds[r]]["atomic_test"])]
+    lockops = [(r, o) for (r, o) in allops if o in ("L", "U", "X") or (o == "T" and hs[kinds[r]]["atomic_test"])]
 
     def lock_at(t, exclude=None):
         """value of the lock flag seen at time t"""
@@ -226,6 +234,8 @@ def bmc(hs, kinds, nsteps, want_violation=True, faults=True):
             s.add(act[(r, "T")] == (proceed[r] if h["atomic_test"] else z3.BoolVal(True)))
         else:
             proceed[r] = z3.BoolVal(True)
+        if (r, "X") in act:
+            s.add(act[(r, "X")] == z3.Not(proceed[r]))
     rv, wv = {}, {}
     wops = [(r, o) for (r, o) in allops if o.startswith("W")]
     for r in R:
@@ -366,7 +376,7 @@ def real_run(sc, hs, rs):
             watch[h["gen_code"]] = gtab
             table = {ln: fn for ln, fn in table.items() if ln == h["test"]}
         watch.setdefault(code, {}).update(table)
-    order = [("Q%d" % r, o) for r, o in sc["order"]]
+    order = [("Q%d" % r, ("U" if o == "X" else o)) for r, o in sc["order"]]
     enf = schedbmc.Enforcer(order, watch, timeout=8.0)
     # fault injection: exception inside run_step after the clock read
     orig_run_step = bptk_cls.run_step
@@ -502,8 +512,9 @@ def run(tier):
         combos.append(kinds)
     for k in KINDS:
         combos.append((k,))                        # a single request must also leave the instance usable
+    combos += [("step", "steps", "stream"), ("steps", "step", "step"), ("stream", "step", "step")]
     if tier == "thorough":
-        combos += [("step", "steps", "stream"), ("steps", "steps", "step"), ("stream", "step", "step")]
+        combos += [("steps", "steps", "step"), ("stream", "stream", "step"), ("steps", "stream", "steps"), ("step", "step", "step")]
     for kinds in combos:
         nst = tuple(1 if k == "step" else 2 for k in kinds)
         for faults in (False, True):
@@ -550,7 +561,7 @@ def run(tier):
     h2["steps"]["test"] = None
     r2, _ = bmc(h2, ("steps", "steps"), (2, 2), want_violation=True, faults=False)
     rep.canary("run-steps-without-lock-test", r2 == "sat")
-    rep.assume("2 concurrent requests (3 in the thorough tier) on one instance; run-steps with numberSteps = 2, stream-steps with 2 steps left; source-line granularity",
+    rep.assume("2 and 3 concurrent requests on one instance; run-steps with numberSteps = 2, stream-steps with 2 steps left; source-line granularity",
                "fault per request: none, exception raised inside run_step after the clock read, client gone after a streamed step",
                "lock/unlock/is_locked are plain flag operations (checked on the source); run_step reads the clock at its first and writes it at its last clock statement")
     rep.coverage.update({"states": queries, "transitions": max(1, unsat), "traces_validated_against_impl": len(rep.cands) + validated, "samples": samples,
